@@ -12,7 +12,7 @@ RULE = ("acyclic generated definitions with outcomes fixed per (task, item, atte
         "the cap and the number of scenarios enumerated completely are reported), sampled orders with lazy polls for "
         "larger ones; compared: final status always; when succeeded also the executed multiset, every published value "
         "not derived from a racy variable, and every output variable that is not racy (racy = several causally "
-        "unordered writers, computed by the monitor's own execution DAG); additionally the EXHAUSTIVE family of acyclic shapes over 4 tasks (every edge set with a join x every grouping of a task's outgoing edges into one transition or one per target x every per-transition choice of publishing the shared variable: 1024 definitions, every completion order of each) and a hashed sample of the 5-task family; non-trivial = scenario with >= 2 distinct "
+        "unordered writers, computed by the monitor's own execution DAG); additionally the EXHAUSTIVE family of acyclic shapes over 4 tasks (every edge set with a join x every grouping of a task's outgoing edges into one transition or one per target x every per-transition choice of publishing the shared variable, once with values that record their history and once with two constants that recur: 2 x 1024 definitions, every completion order of each) and a hashed sample of the 5-task family; non-trivial = scenario with >= 2 distinct "
         "orders explored and a fork; distinct = (definition, order) digest")
 ASSUMPTIONS = ASSUME_SIM + ["with fail-fast, which tasks ran before a failure legitimately depends on timing: for failed outcomes only the status is compared"]
 
@@ -106,6 +106,8 @@ def jobs(tier, seed):
     # exhaustive: every acyclic shape over 4 tasks x transition grouping x publish pattern (1024 definitions), every
     # completion order of each; plus a sample of the 5-task family
     js += batches("orders", 1024, 64, gen="shape", gseed=0, p_fail=0.0, max_orders=120, max_completions=6, name="shapes-4-exhaustive")
+    js += batches("orders", 1024, 64, gen="shape", shape_literal=True, gseed=0, p_fail=0.0, max_orders=120, max_completions=6,
+                  name="shapes-4-literal-publishes")
     js += batches("orders", scale(tier, 160, 8000), scale(tier, 16, 100), gen="shape", shape_n=5, shape_sample=True, gseed=seed + 7,
                   p_fail=0.0, max_orders=scale(tier, 60, 240), max_completions=6, name="shapes-5-sampled")
     return js
